@@ -101,6 +101,13 @@ CHECKS = [
            "Cramer-von Mises formula on dyadic samples are replayed; random ensembles are validated by EnsRankTrace.tla.",
       note="stable qsort assumed (glibc 2.36); AD statistic and p-value values not decided (range, order independence, rejection only)",
       technique=TLA),
+ dict(property_id="C20", category="model_checking", design_ref="3.15",
+      text="Summaries.tla: TLC checks the loop model of c_paretofront against the dominance definition (with non-empty front and orientation reversal) "
+           "for every small point set with ties and NaN, and states box statistics as exact linear-interpolation percentiles of the finite values; "
+           "every state is replayed through pareto_front / boxplot_stats / Boxplot (column- and group-wise) / Violin; random lhs samples, plotting "
+           "positions, normal scores, larger point sets and columns are validated by SummariesTrace.tla.",
+      note="KDE and norm.ppf values not decided (range/order only); dyadic lhs ranges",
+      technique=TLA),
 ]
 
 _PENDING = "check not built yet in this round; see DESIGN.md section 3 for the planned specification"
